@@ -37,6 +37,7 @@ FORMS = [
     "named + trailing filter: @d.hook('map_query').apply_to(method=M)",
     "leading filter + named: @d.hook.apply_to(method=M)('map_query')",
     "unregister an earlier hook",
+    "unregister an earlier hook and register the same function again without filters",
 ]
 NFORMS = len(FORMS)
 N = tier(2, 3)
@@ -99,6 +100,19 @@ def do_step(d: HookDispatcher, k: int, form: int, m: int, p: int, registered: li
         d.register("map_query").apply_to(method=method)(fn)
     elif form == 6:
         d.register.apply_to(method=method)("map_query")(fn)
+    elif form == 8:
+        # the same function object comes back without filters: it then applies everywhere, whatever filters it carried before
+        if registered:
+            victim = registered[0]
+            d.unregister(victim[0])
+            registered.remove(victim)
+            if victim[1] in (4, 5, 6):
+                d.register("map_query")(victim[0])
+                registered.append((victim[0], 4, 0, 0))
+            else:
+                d.register(victim[0])
+                registered.append((victim[0], 0, 0, 0))
+        return
     else:
         # unregister: `m` selects which still-registered hook (if any)
         if registered:
@@ -112,7 +126,7 @@ def do_step(d: HookDispatcher, k: int, form: int, m: int, p: int, registered: li
 # One registration step = one "variant": (form, method index, path index)
 VARIANTS = [
     (0, 0, 0), (1, 0, 0), (1, 1, 0), (2, 0, 0), (2, 1, 0), (3, 0, 0), (3, 1, 1), (4, 0, 0), (5, 0, 0), (5, 1, 0), (6, 0, 0), (6, 1, 0),
-    (7, 0, 0), (7, 1, 0),
+    (7, 0, 0), (7, 1, 0), (8, 0, 0),
 ]
 VNAMES = ["%s [M=%s P=%s]" % (FORMS[f], METHODS[m], PATHS[p]) for f, m, p in VARIANTS]
 NV = len(VARIANTS)
@@ -187,6 +201,48 @@ def hook_scopes(vs: int, vt: int, op: int) -> bool:
         operation.schema.hooks = old_schema
     want = [fn.step for fn, form, m, p in regs if expected_applies(form, m, p, op)]
     return rec.applied == want
+
+
+
+from schemathesis.specs.openapi import _hypothesis as _oh
+
+
+def hooks_between_examples(e1: int, e2: int, e3: int, op: int) -> bool:
+    """
+    pre: all(0 <= e <= 3 for e in (e1, e2, e3)) and 0 <= op < len(OPS)
+    post: _
+    """
+    # data is generated many times for one operation (same cached base strategy): a hook registered or unregistered between two
+    # examples is (not) applied from the next example on - on every scope
+    g = HookDispatcher(scope=HookScope.GLOBAL)
+    s = HookDispatcher(scope=HookScope.SCHEMA)
+    t = HookDispatcher(scope=HookScope.TEST)
+    dispatchers = [g, s, t]
+    operation = pick(OPERATIONS, op)
+    old_global, old_schema = hooks.GLOBAL_HOOK_DISPATCHER, operation.schema.hooks
+    hooks.GLOBAL_HOOK_DISPATCHER = g
+    operation.schema.hooks = s
+    base = Recorder()  # the base strategy of the query: built once per operation and cached
+    live: list = []
+    try:
+        for k, event in enumerate((e1, e2, e3)):
+            if event == 3:
+                if live:
+                    d, fn = live.pop(0)
+                    d.unregister(fn)
+            else:
+                fn = make_hook(k)
+                pick(dispatchers, event).register(fn)
+                live.append((pick(dispatchers, event), fn))
+            base.applied = []
+            _oh.apply_hooks(operation, HookContext(operation=operation), t, base, "query")
+            want = [fn.step for d in dispatchers for dd, fn in live if dd is d]
+            if base.applied != want:
+                return False
+    finally:
+        hooks.GLOBAL_HOOK_DISPATCHER = old_global
+        operation.schema.hooks = old_schema
+    return True
 
 
 # ---------------------------------------------------------------------------------------------------------------
@@ -346,6 +402,10 @@ OBLIGATIONS = [
     Ob(fn="hook_scopes", clause="hooks of all applicable scopes (global, schema, test) are all applied, each under its own filter",
        timeout={"quick": 90, "thorough": 300}, params=range(5), functions=_HF, symbolic="filter variant of the schema- and test-scope hooks (global one enumerated); evaluated operation",
        bounds="one hook per scope; 5 filter variants each; 4 operations", stubs=["GLOBAL_HOOK_DISPATCHER and schema.hooks swapped for fresh dispatchers during the call"]),
+    Ob(fn="hooks_between_examples", clause="registering or unregistering a hook between two generated examples of the same operation takes effect from the next example on, on the global, schema and test scope",
+       timeout=300, functions=["schemathesis.specs.openapi._hypothesis.apply_hooks", "schemathesis.hooks.apply_to_all_dispatchers", "schemathesis.hooks.HookDispatcher.apply_to_container"] + _HF[:3],
+       symbolic="three events (register on global / schema / test scope, or unregister the oldest live hook), each followed by the generation of an example; the operation", bounds="3 events x 4 kinds, 4 operations",
+       stubs=["the cached base strategy is a recorder of the hooks attached to it"]),
     Ob(fn="auth_history_2", clause="the auth applied to an operation is the first registered provider whose own filters match it",
        timeout={"quick": 90, "thorough": 300}, params=range(NAV), param_names=["first: " + v for v in AVNAMES], functions=_AF,
        symbolic="registration variant of provider 2 (10 variants); evaluated operation",
